@@ -323,10 +323,75 @@ struct SL
     load_type<T>(sb, p);
   }
 
+  // Buffers handed over with copy_memory_or_grant_access / taken back with copy_memory_or_deny_access (copy branch: mbox
+  // cannot grant or deny access): every element the guest sees / the application receives is the element that was sent.
+  template<class T>
+  static void buf_type(sbx_t& sb)
+  {
+    using G = guest_t<T>;
+    setadd("buffer_types", std::string(Abi::name) + ":" + tname<T>() + "->" + std::to_string(sizeof(G) * 8) + (std::is_signed_v<G> ? "s" : "u"));
+    auto L = lattice<T>();
+    for (size_t k = 0; k < L.size(); k++) {
+      T arr[3] = { L[k], L[(k + 7) % L.size()], L[L.size() - 1 - k] };
+      // application -> sandbox
+      {
+        g_abort_flag = 0;
+        bool copied = false;
+        auto p = rlbox::copy_memory_or_grant_access(sb, arr, 3, false, copied);
+        uint8_t* raw = (uint8_t*)p.UNSAFE_unverified();
+        for (int i = 0; i < 3 && raw; i++) {
+          i128 m = std::is_signed_v<T> ? (i128)arr[i] : (i128)(u128)arr[i];
+          G g;
+          memcpy(&g, raw + i * sizeof(G), sizeof g);
+          i128 got = std::is_signed_v<G> ? (i128)g : (i128)(u128)g;
+          n_eval++;
+          if (m < 0 || m > 127) n_nontriv++;
+          std::string sg = std::string("C06 route=grant-copy abi=") + Abi::name + " elem=" + tname<T>();
+          std::string kk = std::string("buf:") + Abi::name + ":" + tname<T>() + ":" + str(m);
+          if (g_abort_flag) continue; // refused as a whole
+          if (got != m) { viol(sg + (representable<G>(m) ? " kind=value-changed" : " kind=silent-wrap"), kk, "element " + std::to_string(i) + " sent " + str(m) + ", the guest's element holds " + str(got)); break; }
+        }
+        if (raw) sb.free_in_sandbox(p);
+      }
+      // sandbox -> application
+      {
+        auto q = sb.template malloc_in_sandbox<long long>(4);
+        uint8_t* raw = (uint8_t*)q.UNSAFE_unverified();
+        i128 ms[3];
+        bool all_rep = true;
+        for (int i = 0; i < 3; i++) {
+          G g = (G)arr[i];
+          memcpy(raw + i * sizeof(G), &g, sizeof g);
+          ms[i] = std::is_signed_v<G> ? (i128)g : (i128)(u128)g;
+          all_rep = all_rep && representable<T>(ms[i]);
+        }
+        g_abort_flag = 0;
+        bool copied = false;
+        T* out = rlbox::copy_memory_or_deny_access(sb, rlbox::sandbox_reinterpret_cast<T*>(q), 3, false, copied);
+        for (int i = 0; i < 3 && out && !g_abort_flag; i++) {
+          i128 got = std::is_signed_v<T> ? (i128)out[i] : (i128)(u128)out[i];
+          n_eval++;
+          std::string sg = std::string("C06 route=deny-copy abi=") + Abi::name + " elem=" + tname<T>();
+          std::string kk = std::string("buf:") + Abi::name + ":" + tname<T>() + ":" + str(ms[i]);
+          if (got != ms[i]) { viol(sg + (all_rep ? " kind=value-changed" : " kind=silent-wrap"), kk, "the guest's element " + std::to_string(i) + " holds " + str(ms[i]) + ", the application received " + str(got)); break; }
+        }
+        if (out && copied) free(out);
+        sb.free_in_sandbox(q);
+      }
+    }
+  }
+
   static void run(int inst)
   {
     sbx_t sb;
     sb.create_sandbox(inst);
+#ifdef C06_BUF
+    buf_type<short>(sb);
+    buf_type<char16_t>(sb);
+    buf_type<char>(sb);
+    sb.destroy_sandbox();
+    return;
+#endif
     using Cells = tl<char, signed char, unsigned char, short, unsigned short, int, unsigned, long, unsigned long, long long, unsigned long long, char16_t, char32_t>;
     for_types(Cells{}, [&](auto* t) {
       using T = std::remove_pointer_t<decltype(t)>;
